@@ -21,6 +21,7 @@ K(a) == [n |-> a[1], i |-> a[2]]
 ResOK(m, o) == \/ m = o
                \/ m = "IndexError" /\ o \in {"KeyError", "IndexError"}
                \/ m = "KeyOrValueError" /\ o \in {"KeyError", "ValueError"}
+               \/ m = "LookupOrValueError" /\ o \in {"KeyError", "IndexError", "ValueError"}
 
 TInit == /\ tid \in 1..Len(Traces)
          /\ l = 1
@@ -38,10 +39,11 @@ TStep == /\ l <= Len(Tr.events)
                  \/ e.op = "before" /\ Rel(e.p, K(e.k), K(e.r), TRUE)
                  \/ e.op = "after"  /\ Rel(e.p, K(e.k), K(e.r), FALSE)
                  \/ e.op = "sort"   /\ SortFields(e.p)
+                 \/ e.op = "sortby" /\ SortBy(e.p, e.kt)      \* e.kt: the key function's table (sequence over name ranks)
                  \/ e.op = "insert" /\ InsertPara(e.idx, e.n)
                  \/ e.op = "append" /\ AppendPara(e.n)
               /\ ResOK(res', e.res)
-              /\ doc' = e.obs
+              /\ DocSame(doc', e.obs) = TRUE    \* equality; for documents that track nl: modulo the newline at the very end
          /\ l' = l + 1 /\ UNCHANGED tid
          /\ (Diag => PrintT(<<"AT", tid, l>>))
          /\ (l' = Len(Tr.events) + 1 => PrintT(<<"ACCEPTED", tid>>))
